@@ -225,6 +225,26 @@ pub fn geom_case(idx: usize, c: &GeomCase, tier: &str, seed: u64) -> Value {
         }
         experiments.push(f);
     }
+    // whole finder lines inverted (phase of a clock track, a complete solid bar), per region row / column
+    {
+        let ih = (s.rows - 2 * s.rrows) / s.rrows;
+        let iw = (s.cols - 2 * s.rcols) / s.rcols;
+        for a in 0..s.rrows {
+            for r in [a * (ih + 2), a * (ih + 2) + ih + 1] {
+                experiments.push((0..w).map(|c| (r, c)).collect());
+                // only the part of the line inside one region column
+                let b = rng.below(s.rcols);
+                experiments.push((b * (iw + 2)..(b + 1) * (iw + 2)).map(|c| (r, c)).collect());
+            }
+        }
+        for b in 0..s.rcols {
+            for c in [b * (iw + 2), b * (iw + 2) + iw + 1] {
+                experiments.push((0..h).map(|r| (r, c)).collect());
+                let a = rng.below(s.rrows);
+                experiments.push((a * (ih + 2)..(a + 1) * (ih + 2)).map(|r| (r, c)).collect());
+            }
+        }
+    }
     let t_total = (s.ec / 2) * s.blocks;
     // (TLC evaluates the expected codewords in O(k^2), keep k moderate)
     for k in [1usize, 2, t_total.max(1).min(48), (t_total + 1).min(56), (2 * t_total + 2).min(64), (8 * (s.ec / 2).max(1)).min(72)] {
